@@ -1249,6 +1249,8 @@ class Interp:
             return a.tree == b.tree
         if isinstance(a, bool) or isinstance(b, bool):
             return self.py_eq(a, b)
+        if isinstance(a, str) and isinstance(b, str):
+            return z3.BoolVal(a == b)       # enum members are represented by their (interned) values
         if is_container(a) or is_container(b):
             return z3.BoolVal(False)     # containers are values here; identity of two container arguments is not tracked
         if isinstance(a, SV) and isinstance(b, SV) and a.kind.tag == "opt" and b.kind.tag == "obj":
@@ -1259,6 +1261,8 @@ class Interp:
         a = self.tup_to_sv(a)
         b = self.tup_to_sv(b)
         ka, kb = a.kind, b.kind
+        if ka.tag == "none" or kb.tag == "none":
+            return z3.BoolVal(False)      # only reachable in total (contract) mode; the code path raises TypeError
         f = {"<": lambda x, y: x < y, "<=": lambda x, y: x <= y, ">": lambda x, y: x > y, ">=": lambda x, y: x >= y}[sym]
         num = ("bool", "int", "real")
         if ka.tag in num and kb.tag in num:
